@@ -758,11 +758,25 @@ class Models:
         return r
 
     # ------------------------------------------------------------------ iteration
+    def peel(self, eng, st, comp, a):
+        """st.get(comp, a) with the stores to provably different addresses peeled off (a plain select on the older heap:
+        usable as an argument of the content-determined enumeration functions)"""
+        arr = st.heap[comp]
+        while z3.is_app(arr) and arr.decl().kind() == z3.Z3_OP_STORE:
+            h, b, v = arr.children()
+            if eng.valid(st, a != b):
+                arr = h
+            elif eng.valid(st, a == b):
+                return v
+            else:
+                break
+        return z3.Select(arr, a)
+
     def enum_dict(self, eng, st, a):
         """enumeration of a dict/set: n, keys-in-iteration-order array, position map.  The order is a
         function of the container's *content* (ENUM_KS/ENUM_POS over the has/key arrays), so two
         enumerations of an unchanged container agree; the bijection facts are added to the state."""
-        has, dk = st.get("dhas", a), st.get("dkey", a)
+        has, dk = self.peel(eng, st, "dhas", a), self.peel(eng, st, "dkey", a)
         n = st.get("dsize", a)
         key = ("enum", has.get_id(), dk.get_id())
         hit = st.ghost.get(key)
